@@ -1,4 +1,5 @@
 import Op2Model.Basic
+import Op2Model.Parser
 import Op2Model.Str
 import Op2Model.Path
 import Op2Model.Bits
